@@ -183,6 +183,26 @@ def many_atoms():
 
 R.check("counts beyond 999 select V3000", "mol 1000 atoms", {"atoms": 1000}, many_atoms)
 
+
+def many_bonds(n_atoms, n_bonds, version):
+    """fewer than 1000 atoms but a bond count at the V2000 column limit"""
+    pairs = [(i, j) for i in range(n_atoms) for j in range(i + 1, n_atoms)][:n_bonds]
+    a = molecule(["C"] * n_atoms, [0] * n_atoms, [(i, j, BT.SINGLE) for i, j in pairs])
+    if version == "V2000" and n_bonds > 999:
+        f = mol.MOLFile()
+        try:
+            f.set_structure(a, version=version)
+        except (struc.BadStructureError, ValueError):
+            return None
+        return "V2000 requested for more than 999 bonds and written instead of refused"
+    return mol_cycle(a, version)
+
+
+for n_atoms, n_bonds in ((46, 999), (46, 1000), (50, 1200)):
+    for version in (None, "V2000", "V3000"):
+        R.check("counts beyond 999 select V3000", f"mol {n_bonds} bonds {version}", {"atoms": n_atoms, "bonds": n_bonds, "version": version},
+                lambda n_atoms=n_atoms, n_bonds=n_bonds, version=version: many_bonds(n_atoms, n_bonds, version))
+
 RDK_MAP = {int(BT.AROMATIC_SINGLE): None}
 
 
